@@ -610,6 +610,40 @@ def main(argv):
                 exit_code = 1
                 break
     if problems and not n_new_viol:
+        # A static obligation that no longer checks may name a failing-input search of its own
+        # (payload["search"]: a harness program that looks for a concrete concurrent schedule the
+        # sequential harnesses cannot exhibit, judged by an oracle that is sound for every
+        # implementation the obligation's theorem covers).
+        for (k, t, payload) in problems:
+            srch = payload.get("search") if isinstance(payload, dict) else None
+            if not srch or not k.startswith("static:"):
+                continue
+            bok, bout, sbin = go_build(srch["cmd"])
+            if not bok:
+                log.append("failing-input search %s does not build: %s" % (srch["cmd"], bout[-500:]))
+                continue
+            rc, out = sh(["timeout", "120", sbin, "-seed", str(seed), "-budget", "60" if thorough else "25"], timeout=150)
+            try:
+                found = json.loads(out.strip().splitlines()[-1])
+            except Exception:
+                log.append("failing-input search %s: unreadable output %r" % (srch["cmd"], out[-300:]))
+                continue
+            log.append("failing-input search %s after %s: rounds=%s found=%s" % (srch["cmd"], k, found.get("rounds"), found.get("found")))
+            if found.get("found"):
+                sig = "%s:%s" % (pid, srch["kind"])
+                if known_match(pid, sig, known):
+                    continue
+                path = write_replay(pid, seed, re.sub(r"\W+", "_", sig)[:40], {
+                    "property": pid, "kind": sig, "harness": srch["cmd"], "schedule": found,
+                    "broken_obligation": k[len("static:"):], "detail": t,
+                    "found_by": "concurrent failing-input search after the static obligation stopped checking",
+                    "how": "cd harness && go build -tags verif -o /tmp/%s ./cmd/%s && /tmp/%s -seed %d (stops at the first round without a sequential explanation)" % (
+                        srch["cmd"], srch["cmd"], srch["cmd"], found.get("seed", seed))})
+                lines.append("VIOLATION property=%s replay=%s" % (pid, os.path.relpath(path, VERIF)))
+                n_new_viol += 1
+                exit_code = 1
+                break
+    if problems and not n_new_viol:
         # the property is no longer shown; no failing input found by the search above
         mism = [p for p in problems if p[0] == "mismatch"]
         payload = {"property": pid, "no_failing_input_found": True,
